@@ -333,9 +333,67 @@ def handleHw (args : List String) : String :=
     | _, _ => "bad-request"
   | _ => "bad-request"
 
+/-! ### the value side (`c15.vw <peel> <tolerant> <mode> <shape> <objs> <missing> <prim>`)
+
+  A value of a derived struct that did not come out of the reader as it is: the dictionary is read, then the
+  catch-all is emptied (mode `c`), stripped of the type tag and the checked entries (`t`) or kept (`k`); the value
+  is written and read back. Answer: `ok <written> <same|differs> <keys the catch-all gained>`. -/
+
+partial def showVal : Val → String
+  | .leaf p => "L" ++ showPrim p
+  | .none => "_"
+  | .some v => "S(" ++ showVal v ++ ")"
+  | .list vs => "[" ++ ",".intercalate (vs.map showVal) ++ "]"
+  | .map kvs =>
+    let es := kvs.foldl (fun acc kv => insertSorted (kv.1, showVal kv.2) acc) []
+    "M{" ++ ",".intercalate (es.map fun kv => hexOfString kv.1 ++ ":" ++ kv.2) ++ "}"
+  | .pair a b => "P(" ++ showVal a ++ "," ++ showVal b ++ ")"
+  | .direct v => "D(" ++ showVal v ++ ")"
+  -- an object the writer created for an `indirect` field is identified with its content
+  | .indirect (.created _) v => "D(" ++ showVal v ++ ")"
+  | .indirect r v => "I(" ++ showPrim r ++ "," ++ showVal v ++ ")"
+  | .lazy p => "Z" ++ showPrim p
+  | .struct vals other => "T(" ++ ",".intercalate (vals.map showVal) ++ ";" ++ showPrim (.dict other) ++ ")"
+
+def topSchema : Shape → Option Schema
+  | .model n => findSchema n Generated.generatedSchemas
+  | .modelApp n _ => findSchema n Generated.generatedSchemas
+  | _ => none
+
+def valueSide (cfg : Cfg) (env : Env) (shape : Shape) (mode : String) (p : Prim) : String :=
+  let sem := semN cfg Generated.generatedSchemas modelDepth
+  match readShape cfg sem env shape p with
+  | .error e => "rerr " ++ showErr e
+  | .ok (.struct vals other) =>
+    let tags := match topSchema shape with | some S => S.tagKeys | none => []
+    let other1 : Dict :=
+      if mode = "c" then [] else if mode = "t" then other.filter (fun kv => !tags.contains kv.1) else other
+    match writeShape sem shape (.struct vals other1) with
+    | .error _ => "werr"
+    | .ok p1 =>
+      match readShape cfg sem env shape p1 with
+      | .error e => "rerr2 " ++ showErr e
+      | .ok (.struct vals2 other2) =>
+        let same := showVal (.struct vals []) == showVal (.struct vals2 [])
+        let gained := (other2.filter fun kv => (dget kv.1 other1).isNone).map (·.1)
+        let gs := gained.foldl (fun acc k => insertSorted (k, "") acc) []
+        let gtxt := if gs.isEmpty then "-" else "+".intercalate (gs.map fun kv => hexOfString kv.1)
+        s!"ok {showPrim p1} {if same then "same" else "differs"} {gtxt}"
+      | .ok _ => "not-a-struct"
+  | .ok _ => "not-a-struct"
+
+def handleVw (args : List String) : String :=
+  match args with
+  | [_, peel, tol, mode, shape, objs, miss, prim] =>
+    match boolOf peel, boolOf tol, parseShapeAll shape, parseObjects objs, parseMissing miss, parsePrimAll prim with
+    | some pl, some tl, some sh, some os, some ms, some p => valueSide ⟨pl⟩ (mkEnv os ms tl) sh mode p
+    | _, _, _, _, _, _ => "bad-request"
+  | _ => "bad-request"
+
 def handle (args : List String) : String :=
   match args with
   | "c15.rt" :: _ => handleRt args
+  | "c15.vw" :: _ => handleVw args
   | "c15.hw" :: _ => handleHw args
   | ["c15.f32", i] =>
     match intOf i with
